@@ -1,4 +1,159 @@
+/-
+C01 — Rounding under any context is correct rounding.
+Property theorems only; helper lemmas live in `Fpy/Proof/Round.lean`,
+the arithmetic specification in `Fpy/Spec/Rounding.lean`.
+
+Vocabulary: the operand is `x = (-1)^s · c · 2^exp`; rounding at position `n`
+(first unrepresentable digit) with `k = n + 1 - exp` digits to drop; magnitudes are
+counted in units of `2^exp`, so the representable grid is the multiples of `2^k` and
+`Spec.roundQuot rm s c k` is the multiple prescribed by mode `rm` (lower neighbour
+`c / 2^k`, upper neighbour `c / 2^k + 1`, chosen by the mode's name).
+-/
+import Fpy.Proof.Round
 import Fpy.Model.Num.Ctx
 namespace Fpy.Props.C01
-theorem placeholder : True := trivial
+open Fpy Fpy.Spec
+
+/-- The Spec itself is sane: the prescribed point is one of the two neighbours,
+a grid point is its own rounding, nearest modes land within half a spacing. -/
+theorem spec_neighbour (rm : RM) (s : Bool) (c k : Nat) :
+    roundQuot rm s c k = c / 2 ^ k ∨ roundQuot rm s c k = c / 2 ^ k + 1 :=
+  roundQuot_neighbour rm s c k
+
+theorem spec_representable_fixed_point (rm : RM) (s : Bool) (c k : Nat) (h : c % 2 ^ k = 0) :
+    roundQuot rm s c k * 2 ^ k = c := by
+  rw [roundQuot_exact rm s c k h]; exact Nat.div_mul_cancel (Nat.dvd_of_mod_eq_zero h)
+
+theorem spec_nearest_within_half (rm : RM) (hrm : rm = .rne ∨ rm = .rna) (s : Bool) (c k : Nat) :
+    2 * (roundQuot rm s c k * 2 ^ k) ≤ 2 * c + 2 ^ k ∧ 2 * c ≤ 2 * (roundQuot rm s c k * 2 ^ k) + 2 ^ k :=
+  roundQuot_nearest rm hrm s c k
+
+/-- **Fixed-point families** (`MPFixed`, `MPBFixed`, `Fixed`, `SMFixed` before the range check):
+`RealFloat.round(min_n = n)` of a non-zero operand with digits at or below `n` returns exactly
+the grid point the mode prescribes, with `inexact` set iff digits were lost; it never raises. -/
+theorem round_fixed_correct (x : RF) (n : Int) (rm : RM) (hc : x.c ≠ 0) (hle : x.exp ≤ n) :
+    x.round none (some n) rm =
+      .ok (⟨x.s, n + 1, roundQuot rm x.s x.c (n + 1 - x.exp).toNat⟩,
+           { inexact := decide (x.c % 2 ^ (n + 1 - x.exp).toNat ≠ 0) }) := by
+  unfold RF.round RF.roundParams
+  simp only [if_true]
+  exact roundAtCore_fixed x n rm hc hle
+
+/-- … and an operand whose digits are all above `n` is returned unchanged and not flagged. -/
+theorem round_fixed_representable (x : RF) (n : Int) (rm : RM) (h : x.exp > n) :
+    ∃ fl, x.round none (some n) rm = .ok (x, fl) ∧ fl.inexact = false := by
+  unfold RF.round RF.roundParams
+  simp only [if_true]
+  exact roundAtCore_above x n none rm false h
+
+/-- **Floating-point families** (`MPFloat`: `minN = none`; `MPSFloat`/`MPBFloat`/`EFloat`/`IEEE`
+before the range check: `minN = some nmin`).  The rounding position is
+`n = max(nmin, e - p)`; the result keeps the sign, has at most `p` digits, lies above `n`;
+a representable operand is returned unchanged and unflagged; otherwise its magnitude is the
+prescribed grid point (a carry into the next binade is the same number re-normalised) and
+`inexact` is set iff digits were lost. -/
+theorem round_float_correct (x : RF) (p : Nat) (minN : Option Int) (rm : RM) (hc : x.c ≠ 0) (hp : 1 ≤ p) :
+    let n : Int := match minN with | none => x.e - p | some m => max m (x.e - p)
+    ∃ y fl, x.round (some p) minN rm = .ok (y, fl) ∧ y.s = x.s ∧ bitLength y.c ≤ p ∧ y.exp > n ∧
+      (x.exp > n → y = x ∧ fl.inexact = false) ∧
+      (x.exp ≤ n →
+        y.c * 2 ^ (y.exp - (n + 1)).toNat = roundQuot rm x.s x.c (n + 1 - x.exp).toNat ∧
+        fl.inexact = decide (x.c % 2 ^ (n + 1 - x.exp).toNat ≠ 0)) := by
+  intro n
+  have hn : x.e - p ≤ n := by
+    simp only [n]; cases minN <;> simp <;> omega
+  cases minN with
+  | none =>
+    unfold RF.round RF.roundParams
+    simp only [if_true]
+    exact roundAtCore_prec x p (x.e - p) none rm hc hp (by omega)
+  | some m =>
+    unfold RF.round RF.roundParams
+    simp only [if_true]
+    exact roundAtCore_prec x p (max m (x.e - p)) _ rm hc hp (by omega)
+
+/-- `exact=True` raises exactly when digits would be lost (fixed-point shape). -/
+theorem round_exact_flag (x : RF) (n : Int) (rm : RM) (hc : x.c ≠ 0) (hle : x.exp ≤ n) :
+    x.roundAtCore none n none rm true =
+      if x.c % 2 ^ (n + 1 - x.exp).toNat = 0 then .ok (⟨x.s, n + 1, x.c / 2 ^ (n + 1 - x.exp).toNat⟩, {})
+      else .error .valueError :=
+  roundAtCore_fixed_exact x n rm hc hle
+
+/-- The mode → (nearest, direction) table of the code agrees with the modes' names:
+it is what makes `_round_increment` compute `roundQuot` (used in `roundIncrement_spec`);
+stated outright so that an edit of the table alone is caught. -/
+theorem to_direction_table :
+    (∀ s, RM.toDirection .rne s = (true, .rte)) ∧ (∀ s, RM.toDirection .rna s = (true, .raz)) ∧
+    RM.toDirection .rtp true = (false, .rtz) ∧ RM.toDirection .rtp false = (false, .raz) ∧
+    RM.toDirection .rtn true = (false, .raz) ∧ RM.toDirection .rtn false = (false, .rtz) ∧
+    (∀ s, RM.toDirection .rtz s = (false, .rtz)) ∧ (∀ s, RM.toDirection .raz s = (false, .raz)) ∧
+    (∀ s, RM.toDirection .rto s = (false, .rto)) ∧ (∀ s, RM.toDirection .rte s = (false, .rte)) := by
+  refine ⟨?_, ?_, rfl, rfl, rfl, rfl, ?_, ?_, ?_, ?_⟩ <;> intro s <;> cases s <;> rfl
+
+/-- **Bounded float contexts: in range.**  If the unbounded-exponent rounding does not exceed
+the largest magnitude of its sign, the context returns it with its flags and no overflow. -/
+theorem mpb_in_range (c : MPBParams) (x y : RF) (fl : Flags) (hx : x.c ≠ 0)
+    (hr : x.round (some c.p) (some c.nmin) c.rm c.k 0 false = .ok (y, fl))
+    (hin : (if y.s then y.lt c.negMax else y.gt c.posMax) = false) :
+    mpbRoundAt c (.fin x) none false 0 = .ok ⟨.fin y, fl⟩ := by
+  unfold mpbRoundAt floatSpecial
+  simp only [hx, if_false, hr, hin]
+  rfl
+
+/-- **Bounded float contexts: out of range.**  If the unbounded-exponent rounding exceeds the
+range, the outcome is what the overflow mode says and nothing else: `ASSERT` raises
+`OverflowError`; `SATURATE` gives the largest value of that sign; `OVERFLOW` gives infinity
+(or its substitute, or `ValueError` when there is none) exactly when the mode's direction
+points away from zero for that sign, else the largest value; and both `overflow` and
+`inexact` are set on every value returned. -/
+theorem mpb_overflow (c : MPBParams) (x y : RF) (fl : Flags) (hx : x.c ≠ 0)
+    (hr : x.round (some c.p) (some c.nmin) c.rm c.k 0 false = .ok (y, fl))
+    (hout : (if y.s then y.lt c.negMax else y.gt c.posMax) = true) :
+    mpbRoundAt c (.fin x) none false 0 =
+      (match c.ov with
+       | .assert => .error .overflowError
+       | .saturate => .ok ⟨.fin (if y.s then c.negMax else c.posMax), { overflow := true, inexact := true }⟩
+       | .overflow =>
+         if overflowToInfinity c.rm y.s then
+           (if c.o.enableInf then .ok ⟨.inf x.s, { overflow := true, inexact := true }⟩
+            else match c.o.infValue with
+              | none => .error .valueError
+              | some iv => .ok ⟨iv.withSign y.s, { overflow := true, inexact := true }⟩)
+         else .ok ⟨.fin (if y.s then c.negMax else c.posMax), { overflow := true, inexact := true }⟩
+       | .wrap => .error .assertion) := by
+  unfold mpbRoundAt floatSpecial
+  simp only [hx, if_false, hr, hout, if_true]
+  cases c.ov <;> simp only [setOvf] <;> (try rfl)
+
+/-- overflow goes to infinity exactly for the modes that round away from zero for that sign
+(nearest modes included), to the largest finite value for those that round toward zero -/
+theorem overflow_to_infinity_table (s : Bool) :
+    overflowToInfinity .rne s = true ∧ overflowToInfinity .rna s = true ∧ overflowToInfinity .raz s = true ∧
+    overflowToInfinity .rtz s = false ∧ overflowToInfinity .rtp s = !s ∧ overflowToInfinity .rtn s = s := by
+  cases s <;> simp [overflowToInfinity, RM.toDirection]
+
+/-- zeros keep their sign in the float families, NaN/∞ are option-determined -/
+theorem mpb_zero (c : MPBParams) (s : Bool) (e : Int) (n : Option Int) (ex : Bool) (r : Nat) :
+    mpbRoundAt c (.fin ⟨s, e, 0⟩) n ex r = .ok ⟨.fin ⟨s, 0, 0⟩, {}⟩ := by
+  unfold mpbRoundAt floatSpecial; simp
+
+theorem mpb_nan (c : MPBParams) (s : Bool) (n : Option Int) (ex : Bool) (r : Nat) :
+    mpbRoundAt c (.nan s) n ex r =
+      if c.o.enableNan then .ok ⟨.nan false, {}⟩
+      else match c.o.nanValue with | none => .error .valueError | some v => .ok ⟨v, {}⟩ := by
+  unfold mpbRoundAt floatSpecial; rfl
+
+theorem mpb_inf (c : MPBParams) (s : Bool) (n : Option Int) (ex : Bool) (r : Nat) :
+    mpbRoundAt c (.inf s) n ex r =
+      if c.o.enableInf then .ok ⟨.inf s, {}⟩
+      else match c.o.infValue with | none => .error .valueError | some v => .ok ⟨v.withSign s, {}⟩ := by
+  unfold mpbRoundAt floatSpecial; rfl
+
+/-! Non-vacuity: concrete operands meeting the hypotheses, evaluated by the kernel. -/
+example : (⟨false, 0, 13⟩ : RF).c ≠ 0 ∧ (⟨false, 0, 13⟩ : RF).exp ≤ (0 : Int) := by decide
+example : roundQuot .rne false 13 1 = 6 ∧ roundQuot .rne false 15 1 = 8 ∧ roundQuot .rna false 13 1 = 7 ∧
+    roundQuot .rtz false 13 1 = 6 ∧ roundQuot .rtn true 13 1 = 7 := by decide
+example : ((⟨false, 0, 13⟩ : RF).round (some 3) none .rne).toOption = some (⟨false, 1, 6⟩, { inexact := true }) := by decide
+example : ((⟨false, 0, 15⟩ : RF).round (some 3) none .rne).toOption = some (⟨false, 2, 4⟩, { inexact := true, carry := true }) := by decide
+
 end Fpy.Props.C01
